@@ -1,4 +1,5 @@
 #!/bin/bash
+# NOTE: never run tools/seedcheck.sh (or seedbatch/seedcross) side by side with tools/seeded_all.sh: seeded_all patches /repo in place and seedcheck copies /repo.
 # tools/seedcheck.sh <ID> <seed-dir> [demo go-test args...]
 # Confirms a seeded change independently (suite passes with it, demo fails with it and passes without it) in a scratch copy,
 # then applies it to /repo, runs ./check <ID> (quick) and undoes it. Prints a summary; copies the artefacts to seeded/<name>/.
